@@ -9,5 +9,6 @@ CONSTANTS
   CopyArgs = TRUE
   HtmlDep = FALSE
   LazyInit = FALSE
+  PoolBuf = FALSE
 INVARIANTS Emit Deterministic SharedReadOnly NoBlocking LockSane
 CHECK_DEADLOCK FALSE
